@@ -15,11 +15,12 @@ MODULES = {
     "C05": ["C05", "GenNumWcv", "GenNumWcvp"],
     "C06": ["C06core", "C06"],
     "C07": ["C07", "GenNumBrent", "GenNumGammafit", "GenNumGammastd"],
-    "C08": ["C08", "GenNumGammastd", "GenNumGammastdYxt"],
+    "C08": ["C08", "GenNumGammastd", "GenNumGammastdYxt", "SafeBrentq", "SafeGammafit", "SafeGammastd"],
     "C09": ["C09", "GenNumGammastdGrp"],
     "C10": ["C10", "GenKMk", "GenNumMkScore", "GenNumMkVar", "GenNumMkZ", "GenNumMkP", "GenNumMkSens", "GenNumMkTrend"],
     "C11": ["C11"], "C12": ["C12"], "C13": ["C13"],
-    "C14": ["C14", "SafeRollingSum", "SafeLroo", "SafeMeanGrp", "SafeDoMean", "SafeAutocorrSums", "SafeMkScoreCounts"],
+    "C14": ["C14", "SafeRollingSum", "SafeLroo", "SafeMeanGrp", "SafeDoMean", "SafeAutocorrSums", "SafeMkScoreCounts",
+            "SafeWs2d", "SafeTinterpolate", "SafeWs2doptv"],
     "C15": ["C15", "GenKAC", "GenNumACFloat"],
     "C16": ["C16", "GenKDoMean", "GenKDoMeanB"],
     "C17": ["C17", "C17round", "C17float", "GenKRS", "GenKRSround", "GenKMeanGrp", "GenKMeanGrpB"],
